@@ -112,33 +112,54 @@ def combineThrows (idx : List Nat) (t : Nat) : Bool :=
 Both accept threads (`SessionManager::accept_loop`, `ControlServer::Impl::accept_loop`) take one
 connection at a time and read from it with blocking `recv` before they accept the next one.
 A connection is abstracted to what it costs the accept thread: it completes its request after
-some time, or it stays silent.  `readTimeout` is the bound the code puts on a blocking read of an
-accepted connection (`none`: no bound). -/
+some time, it stays silent, or it never reads its answer.  `readT` / `writeT` are the bounds the code
+puts on a blocking read / write of an accepted connection (`none`: no bound). -/
 
 inductive Conn where
-  /-- sends what is expected of it; the accept thread is busy for `work` time units -/
+  /-- sends what is expected of it and reads its answer; the accept thread is busy for `work` time units -/
   | completes (work : Nat)
-  /-- connects and then sends nothing (or not enough) -/
+  /-- connects and then sends nothing (or not enough): the accept thread sits in a blocking read -/
   | silent
+  /-- sends its request (`work`) and then never reads the answer: the accept thread sits in a blocking write -/
+  | neverReads (work : Nat)
 deriving DecidableEq, Repr
 
-/-- time the accept thread spends on one connection; `none` = it never comes back -/
-def holdTime (readTimeout : Option Nat) : Conn → Option Nat
+/-- sends its request and reads its answer -/
+def Conn.wellBehaved : Conn → Bool
+  | .completes _ => true
+  | _ => false
+
+/-- the work the accept thread does for the connection before it can get stuck -/
+def Conn.work : Conn → Nat
+  | .completes w => w
+  | .silent => 0
+  | .neverReads w => w
+
+/-- time the accept thread spends on one connection; `none` = it never comes back.
+    `readT` / `writeT`: the bound on one blocking read / write of an accepted connection (`none` = unbounded) -/
+def holdTime (readT writeT : Option Nat) : Conn → Option Nat
   | .completes w => some w
-  | .silent => readTimeout
+  | .silent => readT
+  | .neverReads w => writeT.map (w + ·)
 
 /-- when the accept thread gets to the `k`-th queued connection (`none` = never) -/
-def pickedUpAt (readTimeout : Option Nat) : List Conn → Nat → Option Nat
+def pickedUpAt (readT writeT : Option Nat) : List Conn → Nat → Option Nat
   | _, 0 => some 0
   | [], _ + 1 => some 0
   | c :: rest, k + 1 =>
-    match holdTime readTimeout c, pickedUpAt readTimeout rest k with
+    match holdTime readT writeT c, pickedUpAt readT writeT rest k with
     | some h, some t => some (h + t)
     | _, _ => none
 
-/-- what the real-thread probe `rt stall` must observe for a second client queued behind a silent one -/
-def secondClientServed (readTimeoutSet : Bool) : Bool :=
-  (pickedUpAt (if readTimeoutSet then some 2 else none) [.silent, .completes 0] 1).isSome
+/-- the bound a flag regenerated from the source stands for (`T`: the timeout constant of the code) -/
+def ioBound (flag : Bool) (T : Nat) : Option Nat := if flag then some T else none
+
+/-- what the real-thread probe `rt stall` must observe for a client queued behind a silent one /
+    behind one that never reads -/
+def servedBehindSilent (readFlag : Bool) : Bool :=
+  (pickedUpAt (ioBound readFlag 1) none [.silent, .completes 0] 1).isSome
+def servedBehindDeaf (writeFlag : Bool) : Bool :=
+  (pickedUpAt none (ioBound writeFlag 1) [.neverReads 0, .completes 0] 1).isSome
 
 /-! ### helpers for the driver -/
 
